@@ -26,6 +26,18 @@ from .world import World
 _RUN_COUNTER = [0]
 
 
+def canon_bytes(arr: Any) -> bytes:
+    """Bytes of an array with every NaN replaced by the canonical quiet NaN (the sign/payload bits of a NaN
+    carry no meaning and do not survive e.g. a JSON round trip)."""
+    a = np.ascontiguousarray(np.asarray(arr))
+    if a.dtype.kind == "f":
+        m = np.isnan(a)
+        if m.any():
+            a = a.copy()
+            a[m] = np.nan
+    return a.tobytes()
+
+
 def result_bytes(item: Any) -> bytes:
     """Canonical byte serialisation of a Results object (all arrays)."""
     chunks: list[bytes] = [type(item).__name__.encode(), repr(item.batch_id).encode()]
@@ -37,7 +49,7 @@ def result_bytes(item: Any) -> bytes:
         else:
             a = np.asarray(arr)
             chunks.append(str(a.shape).encode() + str(a.dtype).encode())
-            chunks.append(np.ascontiguousarray(a).tobytes())
+            chunks.append(canon_bytes(a))
 
     ev = item.evaluations
     for fld in ("variables", "objectives", "constraints", "perturbed_variables",
@@ -308,8 +320,8 @@ def trace_digest(ctx: RunContext) -> str:
         chunks.append(b"" if c.perturbations is None else c.perturbations.astype(np.int64).tobytes())
         chunks.append(b"" if c.active_objectives is None else c.active_objectives.tobytes())
         chunks.append(b"" if c.active_constraints is None else c.active_constraints.tobytes())
-        chunks.append(b"" if c.obj is None else c.obj.tobytes())
-        chunks.append(b"" if c.con is None else c.con.tobytes())
+        chunks.append(b"" if c.obj is None else canon_bytes(c.obj))
+        chunks.append(b"" if c.con is None else canon_bytes(c.con))
     for rec in ctx.events:
         chunks.append(f"EVENT {rec.n} {int(rec.type)} {rec.source} {rec.deliveries}".encode())
         for s in rec.snap or []:
@@ -320,5 +332,5 @@ def trace_digest(ctx: RunContext) -> str:
         chunks.append(f"B {b.get('ev')} {b.get('op')}".encode())
         for key in ("x", "functions", "gradients"):
             if key in b:
-                chunks.append(np.asarray(b[key]).tobytes())
+                chunks.append(canon_bytes(b[key]))
     return digest_bytes(*chunks)
